@@ -812,6 +812,15 @@ def call_builtin_method(ex, recv, name, args, kw, node):
         else:
             raise Unsupported(f".{name} on an untyped empty container")
     if isinstance(recv, SeqV):
+        if name in ("all", "any") and not args and getattr(recv, "is_ndarray", False):
+            # numpy boolean array .all() / .any()
+            q = ex.materialize(recv)
+            (a,) = arrs_of(q)
+            if a.sort().range() != z3.BoolSort():
+                raise Unsupported(f".{name}() on a non-boolean array")
+            k = z3.Const(fresh_name("ak"), z3.IntSort())
+            rng = z3.And(k >= 0, k < q.n)
+            return V.qforall([k], z3.Implies(rng, z3.Select(a, k))) if name == "all" else z3.Exists([k], z3.And(rng, z3.Select(a, k)))
         if name == "append":
             (x,) = args
             terms = flatten(recv.shape, x)
